@@ -43,6 +43,8 @@ DontCare(ln) == \E i \in 1 .. Len(ln.steps) : ln.steps[i].out = 0 /\ ~ln.steps[i
 
 Fails(ln) ==
   (IF SentToks(ln) # ProvToks(ln) THEN {"provider_tokens_sent_exactly_once_in_order"} ELSE {})
+  \cup (IF ln.prov.auth /\ \E i \in 1 .. Len(AuthPdus(ln)) : AuthPdus(ln)[i].type = "alter" /\ AuthPdus(ln)[i].tok <= 0
+          THEN {"alter_context_sent_without_a_provider_token"} ELSE {})
   \cup (IF \E i \in 1 .. Len(AuthPdus(ln)) : (AuthPdus(ln)[i].type = "bind") # (i = 1)
           THEN {"first_token_in_bind_then_alter_context"} ELSE {})
   \cup (IF ln.prov.auth /\ Len(ln.steps) > 0 /\
